@@ -47,7 +47,9 @@ int main(int argc, char **argv) {
 
   if (tagLib) {
     for (auto &F : *M) if (!F.isDeclaration()) F.addFnAttr("slulib");
-    for (auto &G : M->globals()) if (G.hasInitializer() && !G.isConstant()) G.setSection("slulib_data");
+    for (auto &G : M->globals()) { StringRef nm = G.getName();
+      if (!G.hasInitializer() || G.isConstant() || G.hasAppendingLinkage() || G.hasSection() || nm.startswith("llvm.") || nm.startswith("__asan") || nm.startswith("___asan") || nm.startswith("__odr_asan") || nm.startswith("__ubsan") || nm.startswith("__sancov") || nm.startswith("__msan")) continue;
+      G.setSection("slulib_data"); }
     if (verifyModule(*M, &errs())) return 1;
     std::error_code EC; raw_fd_ostream O(pos[1], EC, sys::fs::OF_None); WriteBitcodeToFile(*M, O); return 0;
   }
